@@ -295,7 +295,10 @@ where
     }
 }
 
-fn partial_close_promotes<T, const D: u8>(full: bool, side: Option<bool>)
+/// Returns whether the run was promoted to a full close *because the tokens would be zeroed* (only
+/// reachable for longs: the long token delta rounds up; a short's rounds down and reaches all tokens
+/// only on a full close).
+fn partial_close_promotes<T, const D: u8>(full: bool, side: Option<bool>) -> bool
 where
     T: FixedPointOps<D> + CheckedSub + Copy + kani::Arbitrary + Into<u32> + num_traits::Bounded,
     T::Signed: Num + Copy + kani::Arbitrary,
@@ -320,7 +323,7 @@ where
     let a = DecreasePosition::try_new(&mut pos0, prices, delta, None, withdraw, symbolic_flags());
     let Ok(a) = a else {
         core::mem::forget(a);
-        return;
+        return false;
     };
     // re-seat on a fresh handle (a handle read back from the `Result` payload is imprecise for CBMC)
     let mut a = a.verif_with_position(&mut pos);
@@ -333,8 +336,9 @@ where
     let r1 = a.verif_check_partial_close();
     if r1.is_err() {
         core::mem::forget(r1);
-        return;
+        return false;
     }
+    let mut promoted_for_tokens = false;
     let r2 = a.verif_check_close();
     assert!(r2.is_ok());
 
@@ -360,17 +364,15 @@ where
         // full close: no separate collateral withdrawal (all collateral is returned anyway)
         assert!(w1 == 0);
         kani::cover!(d0 < size && d0 > 0, "promoted to a full close");
-        kani::cover!(
-            d0 < size
-                && size - d0 >= w(m.position_params.min_position_size_usd)
-                && size_delta_in_tokens_ref(p.is_long, size, tokens, d0).map(|s| s >= tokens).unwrap_or(false),
-            "promoted because the tokens would be zeroed"
-        );
+        promoted_for_tokens = d0 < size
+            && size - d0 >= w(m.position_params.min_position_size_usd)
+            && size_delta_in_tokens_ref(p.is_long, size, tokens, d0).map(|s| s >= tokens).unwrap_or(false);
         kani::cover!(d0 == size && w0 > 0, "withdrawal dropped on full close");
     }
     core::mem::forget(r1);
     core::mem::forget(r2);
     let _ = max;
+    promoted_for_tokens
 }
 
 //@ prop=C07 tier=quick kind=hold
@@ -379,7 +381,8 @@ where
 //@ stubs=none; hooks: DecreasePosition::verif_check_partial_close / verif_check_close / verif_with_position / accessors (thin wrappers)
 #[kani::proof]
 fn c07_partial_close_promotes_long_u8() {
-    partial_close_promotes::<u8, 1>(false, Some(true));
+    let promoted_for_tokens = partial_close_promotes::<u8, 1>(false, Some(true));
+    kani::cover!(promoted_for_tokens, "promoted because the tokens would be zeroed");
 }
 
 //@ prop=C07 tier=quick kind=hold
@@ -388,7 +391,7 @@ fn c07_partial_close_promotes_long_u8() {
 //@ stubs=none; hooks: DecreasePosition::verif_check_partial_close / verif_check_close / verif_with_position / accessors (thin wrappers)
 #[kani::proof]
 fn c07_partial_close_promotes_short_u8() {
-    partial_close_promotes::<u8, 1>(false, Some(false));
+    let _ = partial_close_promotes::<u8, 1>(false, Some(false));
 }
 
 //@ prop=C07 tier=thorough kind=hold
@@ -398,7 +401,8 @@ fn c07_partial_close_promotes_short_u8() {
 //@ timeout=3600 mem=30
 #[kani::proof]
 fn c07_partial_close_promotes_all_u8() {
-    partial_close_promotes::<u8, 1>(true, None);
+    let promoted_for_tokens = partial_close_promotes::<u8, 1>(true, None);
+    kani::cover!(promoted_for_tokens, "promoted because the tokens would be zeroed");
 }
 
 // ------------------------------------------------------------------------------------------------
